@@ -163,6 +163,10 @@ def check_maxseg(rec, cfg, md_len, m):
     for entry, call in (
         ("get_max_file_seg_len_for_max_packet_len_and_pdu_cfg", lambda: fdm.get_max_file_seg_len_for_max_packet_len_and_pdu_cfg(conf, m, sm)),
         ("FileDataPdu.get_max_file_seg_len_for_max_packet_len", lambda: fd.FileDataPdu(conf, fd.FileDataParams(b"", 0, sm)).get_max_file_seg_len_for_max_packet_len(m)),
+        # the same question put to a PDU that currently carries file data (constructed / decoded): the answer is about the
+        # configuration and the metadata, not about what the PDU holds at the moment
+        ("FileDataPdu.get_max_file_seg_len_for_max_packet_len", lambda: fd.FileDataPdu(conf, fd.FileDataParams(b"0123456789abcdef", 3, sm)).get_max_file_seg_len_for_max_packet_len(m)),
+        ("FileDataPdu.get_max_file_seg_len_for_max_packet_len", lambda: fd.FileDataPdu.unpack(bytes(fd.FileDataPdu(conf, fd.FileDataParams(b"01234", 3, sm)).pack())).get_max_file_seg_len_for_max_packet_len(m)),
     ):
         try:
             n = call()
